@@ -144,6 +144,36 @@ def _ret_expr(r, params):
     return "(" + " + ".join(f"{p} * {k + 2}" for k, p in enumerate(params)) + ")"
 
 
+# ------------------------------------------------------------------------------ tail-call chains
+def tail_program(r):
+    """Chains of functions whose last statement is a call of the previous one (the only shape the tail-call rewrite
+    supports on the pinned tree: no other call, no early return, void -> void or value via `return`), with call
+    counts chosen so that some callees have a single call site (inlined when inlining is on) and others several."""
+    cells = _Cells(r)
+    n = r.randint(2, 4)
+    L = []
+    funcs = []
+    for k in range(n):
+        npar = r.randint(0, 3)
+        ps = [f"t{k}_{j}" for j in range(npar)]
+        body = [f"    {cells.next()} = {p}" for p in ps] or [f"    {cells.next()} = {r.randint(100, 999)}"]
+        if r.random() < 0.4:
+            body.append(f"    {cells.next()} = {_dyn(r)}")
+        if funcs and r.random() < 0.85:
+            g = funcs[-1] if r.random() < 0.7 else r.choice(funcs)
+            args = ", ".join(_arg(r, ps) for _ in range(g[1]))
+            body.append(f"    {g[0]}({args})")
+        L.append(f"def tc{k}({', '.join(ps)}):")
+        L += body
+        funcs.append((f"tc{k}", npar))
+    M = ["while True:", "    yield_()"]
+    for k, (f, npar) in enumerate(funcs):
+        reps = r.choice([0, 0, 1, 1, 2]) if k < n - 1 else r.choice([1, 2])
+        for _ in range(reps):
+            M.append(f"    {f}({', '.join(_arg(r, []) for _ in range(npar))})")
+    return HEADER + "\n".join(L + M) + "\n"
+
+
 # ------------------------------------------------------------------------------ register pressure
 def pressure_program(r, k=None, where=None):
     """k simultaneously live values, each read back after all have been assigned (and after calls / loops)."""
